@@ -95,6 +95,20 @@ theorem consumes (T : Tbl) : ∀ f,
                   · simp at h
                 · simp at h
                 · simp at h
+          · split at h
+            · simp at h
+            · split at h
+              · rename_i s rest1 hs
+                split at h
+                · rename_i a rest2 ha
+                  split at h
+                  · have h1 := ihe _ _ _ _ hs
+                    have h1' := ihe _ _ _ _ ha
+                    have h2 := ihl _ _ _ _ _ h
+                    simp; omega
+                  · simp at h
+                · simp at h
+              · simp at h
           · simp at h
           · simp at h
         · simp at h; obtain ⟨-, rfl⟩ := h; simp
@@ -198,6 +212,27 @@ theorem no_fuel_error (T : Tbl) : ∀ f,
                   simp only [Except.error.injEq] at he
                   subst he
                   exact ihe _ _ (by omega) hx
+          · split
+            · simp
+            · split
+              · rename_i s rest1 hs
+                have h1 := hc.1 _ _ _ _ hs
+                split
+                · rename_i a rest2 ha
+                  have h1' := hc.1 _ _ _ _ ha
+                  split
+                  · exact ihl _ _ _ (by omega)
+                  · simp
+                · rename_i e ha
+                  intro he
+                  simp only [Except.error.injEq] at he
+                  subst he
+                  exact ihe _ _ (by omega) ha
+              · rename_i e hs
+                intro he
+                simp only [Except.error.injEq] at he
+                subst he
+                exact ihe _ _ (by omega) hs
           · simp
           · simp
         · simp
